@@ -157,6 +157,17 @@ def main(argv):
 
     ded = [] if a.no_deductive else run_deductive(prop, tier)
     bnd = None if a.no_bounded else run_bounded(prop, tier, seed)
+    ediff = None
+    if ded and not a.no_deductive and os.environ.get('VERIF_NO_ENGINE_DIFF') != '1':
+        # self-test of the verifier's Python model on this tree: pyvc interpreter vs CPython on concrete inputs (tools/engine_diff.py)
+        try:
+            out = os.path.join(VERIF, 'out', 'engine_diff_%s_%d.json' % (prop, os.getpid()))
+            p = subprocess.run([os.path.join(VERIF, 'tools', 'engine_diff.py'), '--root', repo_root(), '--seed', str(seed),
+                                '--cases', '25' if tier == 'thorough' else '5', '--json', out], capture_output=True, text=True, timeout=1800, cwd=VERIF)
+            ediff = json.load(open(out))
+            os.remove(out)
+        except Exception as e:
+            ediff = {'error': str(e)[:300]}
 
     violations, known, undecided, faults = [], [], [], []
     obligations = discharged = 0
@@ -233,6 +244,11 @@ def main(argv):
                           for rep in ded if not rep.get('fault')}
             json.dump(allx, open(os.path.join(EXPECTED_DIR, prop + '.json'), 'w'), indent=0, sort_keys=True)
 
+    if ediff is not None:
+        if ediff.get('error'):
+            faults.append('engine differential did not run: ' + ediff['error'])
+        elif ediff.get('disagree'):
+            faults.append('the verifier\'s Python model disagrees with CPython on a concrete input (engine fault, no property verdict): %s' % json.dumps(ediff['disagree'][0])[:600])
     bcov = {}
     bfail = []
     if bnd is not None:
@@ -316,6 +332,7 @@ def main(argv):
         'functions_under_contract': functions, 'canaries': canaries,
         'deductive_tasks': [{'task': r['task'], 'kind': r['kind'], 'paths': r['paths'], 'seconds': r['seconds'],
                              'obligations': len(r['results']), 'unsupported': r['unsupported']} for r in ded],
+        'engine_differential': ({'cases_agree_with_cpython': ediff.get('agree'), 'skipped': ediff.get('skipped'), 'disagree': len(ediff.get('disagree', []))} if ediff and not ediff.get('error') else None),
         'known_findings_reported': sorted(seenk),
         'undecided': undecided,
         'evaluations': int(bcov.get('evaluations') or 0), 'distinct_nontrivial': int(bcov.get('distinct_nontrivial') or 0),
